@@ -165,6 +165,17 @@ func absTarget(t rpccp.MessageTarget, err error) string {
 	return "b"
 }
 
+// copyable: an Unimplemented reply embeds a deep copy of the offending message; when the copy
+// fails (malformed pointers inside) the Conn reports the error and sends nothing.
+func copyable(m rpccp.Message) bool {
+	_, out := newMsg()
+	return out.SetUnimplemented(m) == nil
+}
+
+func targetParses(tg string) bool {
+	return tg != "e" && tg != "b" && !strings.HasSuffix(tg, "!") && !strings.Contains(tg, "x")
+}
+
 // absEvent projects a message the peer is about to send to the event the model sees.
 func absEvent(m rpccp.Message) string {
 	switch m.Which() {
@@ -184,6 +195,9 @@ func absEvent(m rpccp.Message) string {
 			return "G"
 		}
 		toCaller := c.SendResultsTo().Which() == rpccp.Call_sendResultsTo_Which_caller
+		if !toCaller && !copyable(m) {
+			return "G"
+		}
 		params := "!"
 		tag := uint32(0)
 		if pl, err := c.Params(); err == nil {
@@ -241,7 +255,13 @@ func absEvent(m rpccp.Message) string {
 		case rpccp.Disembargo_context_Which_receiverLoopback:
 			cx = fmt.Sprintf("r%d", d.Context().ReceiverLoopback())
 		}
+		if cx == "o" && targetParses(tg) && !copyable(m) {
+			return "G"
+		}
 		return "D" + tg + "," + cx
+	}
+	if !copyable(m) {
+		return "G"
 	}
 	return "K"
 }
